@@ -1491,7 +1491,8 @@ package pipeline
 //@   callee Load() (r)
 //@     pure
 //@   callee tryUnblock() (r)
-//@     requires !held(s.blockedMu) && 0 <= rangeindex && rangeindex < len(streams) && recv == streams[rangeindex] && ntry == rangeindex
+//@     requires !held(s.blockedMu)
+//@     requires 0 <= rangeindex && rangeindex < len(streams) && recv == streams[rangeindex] && ntry == rangeindex
 //@     preserves streamer, *stream
 //@     set ntry := ntry + 1
 
